@@ -40,13 +40,13 @@ def build_trigger(spec, do):
     kw = dict(spec.get("kwargs") or {})
     kind = spec["kind"]
     if kind == "at_time":
-        return AtTimeTrigger(T.parse_time(spec["time"]), do, **kw)
+        return AtTimeTrigger(datetime.fromisoformat(spec["time"]), do, **kw)
     if kind == "at_times":
-        return AtTimesTrigger([T.parse_time(x) for x in spec["times"]], do, **kw)
+        return AtTimesTrigger([datetime.fromisoformat(x) for x in spec["times"]], do, **kw)
     if kind == "range":
-        return TimeRangeTrigger(TimeRange(T.parse_time(spec["start"]), T.parse_time(spec["end"])), do, **kw)
+        return TimeRangeTrigger(TimeRange(datetime.fromisoformat(spec["start"]), datetime.fromisoformat(spec["end"])), do, **kw)
     if kind == "ranges":
-        return TimeRangesTrigger([TimeRange(T.parse_time(a), T.parse_time(b)) for a, b in spec["ranges"]], do, **kw)
+        return TimeRangesTrigger([TimeRange(datetime.fromisoformat(a), datetime.fromisoformat(b)) for a, b in spec["ranges"]], do, **kw)
     if kind == "period":
         return PeriodTrigger(
             timedelta(minutes=int(spec["period"])), do,
@@ -279,6 +279,18 @@ def generate(seed: int, tier: str = "quick") -> dict:
             else:
                 ms = [gen_mult() for _ in range(rp.randint(1, 4))]
             spec.update(periods=[k * m for m in ms], pending=gen_pending(ms[0]), immediate=rp.random() < 0.4)
+        if rp.random() < 0.15:  # times given with a seconds part (30 s and more included): they denote their minute
+            def sec(x):
+                return T.iso(datetime.fromisoformat(x) + timedelta(seconds=rp.choice([1, 29, 30, 31, 45, 59])))
+
+            if "time" in spec:
+                spec["time"] = sec(spec["time"])
+            if "times" in spec:
+                spec["times"] = [sec(x) if rp.random() < 0.6 else x for x in spec["times"]]
+            if "start" in spec:
+                spec["start"], spec["end"] = (sec(spec["start"]) if rp.random() < 0.6 else spec["start"]), (sec(spec["end"]) if rp.random() < 0.6 else spec["end"])
+            if "ranges" in spec:
+                spec["ranges"] = [[sec(a) if rp.random() < 0.5 else a, sec(b) if rp.random() < 0.5 else b] for a, b in spec["ranges"]]
         spec["kwargs"] = gen_kwargs()
         bar, phase = -1, "initialize"
         if kind not in ("period", "periods") and rp.random() < 0.12:
@@ -524,7 +536,7 @@ ASSUMPTIONS = [
     "so the generator does not produce them",
     "a time that is not a bar timestamp denotes no bar (fired set = denoted instants intersected with the bar grid); ranges "
     "select the bars whose timestamp lies in [start, end)",
-    "times have minute resolution (no seconds); lists of times / ranges / periods are non-empty; periods are >= one bar",
+    "a time given with a seconds part denotes its minute (the constructors document that they set the seconds to 0; the bar clock has minute resolution); lists of times / ranges / periods are non-empty; periods are >= one bar",
     "T0 of a period trigger is the timestamp of the first bar of the run (period triggers are installed in initialize); "
     "only time and range triggers are also installed mid-run, where bars before the installation are not denoted",
     "retirement is judged on the bars of the run only: a trigger may be dropped once none of its denoted bars inside the "
